@@ -200,3 +200,37 @@ Theorem C01_run_permute : forall K (O : Ops K) pi (ops : list (rop (K:=K))) psi 
   run O (map (rop_relabel pi) ops) (tperm pi psi) i = tperm pi (run O ops psi) i.
 Proof. exact @run_permute. Qed.
 Print Assumptions C01_run_permute.
+
+(* ---- repeated sub-circuits and the SWAP relabelling short-cut (Sim/SubBlock.v) ---- *)
+From VF Require Import Sim.CtrlApply Sim.SubBlock Sim.SubBlockProofs Gates.GateSpecs Gates.EigenGate Generated.EigenTables.
+(* r written-out copies of a block = the block iterated r times *)
+Theorem C01_run_repeat : forall K (O : Ops K) sh (ops : list (rop (K:=K))) r l,
+  run_tab O sh (concat (repeat ops r)) l = Nat.iter r (run_tab O sh ops) l.
+Proof. exact @run_repeat_tab. Qed.
+Print Assumptions C01_run_repeat.
+(* CircuitOperation._unitary_'s one-qudit fast path: matrix_power(ordered product with the scalars folded in, n) acts as n runs of the block *)
+Theorem C01_block_fast_path_sound : forall K (O : Ops K), Laws O -> forall sh ax, NoDup ax -> (forall a, In a ax -> a < length sh) ->
+  forall ps n (psi : tensor (K:=K)) i, Forall2 lt i sh ->
+  apply O (mpow_f O (adims sh ax) (fold_pieces O (adims sh ax) ps) n) (adims sh ax) ax psi i
+  = Nat.iter n (run_pieces O (adims sh ax) ax ps) psi i.
+Proof. exact @block_fast_path_sound. Qed.
+Print Assumptions C01_block_fast_path_sound.
+Theorem C01_block_phase_outside_power_refuted : exists (ps : list (piece (K:=K8))) n r q,
+  phase_outside K8Ops [2] ps n r q <> mpow_f K8Ops [2] (fold_pieces K8Ops [2] ps) n r q.
+Proof. exact phase_outside_refuted. Qed.
+Print Assumptions C01_block_phase_outside_power_refuted.
+(* SwapPowGate at an odd exponent is (global phase) * SWAP, in the documented closed form and in the regenerated eigen table ... *)
+Theorem C01_swap_pow_odd : forall K (O : Ops K), Laws O -> forall r rc g, kmul O r rc = k1 O -> kmul O r r = kopp O (k1 O) ->
+  spec_SwapPow O r rc g = mscale O g (SWAPm O) /\ eig_unitary O (tbl_SwapPow O) r rc g = mscale O g (SWAPm O).
+Proof. intros K O L r rc g Hu Ho. split; [exact (swap_pow_odd O L r rc g Hu Ho) | exact (swap_pow_odd_table O L r rc g Hu Ho)]. Qed.
+Print Assumptions C01_swap_pow_odd.
+(* ... so it exchanges the two target digits and multiplies by the global phase: relabelling the factors is exact iff that phase is 1 *)
+Theorem C01_swap_pow_odd_relabels : forall K (O : Ops K), Laws O -> forall r rc g, kmul O r rc = k1 O -> kmul O r r = kopp O (k1 O) ->
+  forall a0 a1 (psi : tensor (K:=K)) i, a0 < length i -> a1 < length i -> a0 <> a1 -> get i a0 < 2 -> get i a1 < 2 ->
+  apply O (mat_of O [2; 2] (spec_SwapPow O r rc g)) [2; 2] [a0; a1] psi i = kmul O g (psi (upd (upd i a0 (get i a1)) a1 (get i a0))).
+Proof. exact @swap_pow_odd_relabels. Qed.
+Print Assumptions C01_swap_pow_odd_relabels.
+Theorem C01_swap_relabel_phase_refuted : exists r rc g : K8,
+  kmul K8Ops r rc = k1 K8Ops /\ kmul K8Ops r r = kopp K8Ops (k1 K8Ops) /\ spec_SwapPow K8Ops r rc g <> SWAPm K8Ops.
+Proof. exact swap_relabel_phase_refuted. Qed.
+Print Assumptions C01_swap_relabel_phase_refuted.
